@@ -132,6 +132,8 @@ class TocFetcher:
         logger.debug('[%d]: Start fetching...', self.port)
         # Register callback in this class for the port
         self.cf.add_port_callback(self.port, self._new_packet_cb)
+        # Stop listening if the link is closed or lost before the TOC has been fetched
+        self.cf.disconnected.add_callback(self._disconnected)
 
         # Request the TOC CRC
         self.state = GET_TOC_INFO
@@ -146,9 +148,21 @@ class TocFetcher:
 
     def _toc_fetch_finished(self):
         """Callback for when the TOC fetching is finished"""
-        self.cf.remove_port_callback(self.port, self._new_packet_cb)
+        self._stop_listening()
         logger.debug('[%d]: Done!', self.port)
         self.finished_callback()
+
+    def _disconnected(self, link_uri):
+        """The link went down while fetching, the fetcher of the next connection takes over"""
+        self._stop_listening()
+        self.state = IDLE
+
+    def _stop_listening(self):
+        self.cf.remove_port_callback(self.port, self._new_packet_cb)
+        try:
+            self.cf.disconnected.remove_callback(self._disconnected)
+        except ValueError:
+            pass
 
     def _new_packet_cb(self, packet):
         """Handle a newly arrived packet"""
